@@ -4,6 +4,7 @@ compact forms) with plain / single- / double-quoted scalars and keys and every n
 spelling; line-level view of the renderer and of the loader.
 -/
 import SuccinctlyVerif.Proof.YamlRoundTrip
+import SuccinctlyVerif.Proof.YamlRefBlockScalar
 namespace SV.YamlRef
 
 /-! ## Plain scalars in general (any `plainSafe` string) -/
@@ -865,9 +866,6 @@ theorem joinRaw_append (a b : List Line) : joinRaw (a ++ b) = joinRaw a ++ joinR
 theorem joinRaw_cons (l : Line) (ls : List Line) : joinRaw (l :: ls) = l.raw ++ '\n' :: joinRaw ls := by
   simp [joinRaw]
 
-/-- Body lines of a block scalar as `Line`s. -/
-def bsLines (ci : Nat) (body : List Str) : List Line := body.map fun l => mkLine (indentLine ci l)
-
 mutual
 /-- The text after the indicator on its own line, and the lines that follow, of a value. -/
 def PNode.valueR (ctx : Ctx) (e col : Nat) (m : Meta) : PNode → Str × List Line
@@ -1129,6 +1127,7 @@ def PNode.bl2 (ctx : Ctx) : PNode → Bool
   | .seq true st c items => (PNode.seq true st c items).fl2
   | .map true st c es => (PNode.map true st c es).fl2
   | .null v => !(ctx == .root && v % 5 == 4)
+  | .str s (.literal ch ind ex) => ctx != .root && strOk false false s (.literal ch ind ex)
   | x => x.sc2 false
 def PItems.bl2 : PItems → Bool
   | .nil => true
@@ -1143,6 +1142,7 @@ end
 def PNode.isInline2 : PNode → Bool
   | .seq false _ _ _ => false
   | .map false _ _ _ => false
+  | .str _ (.literal _ _ _) => false
   | _ => true
 
 /-- `valueR` of an inline value without trailing comment. -/
@@ -1171,7 +1171,7 @@ theorem valueR_inline (x : PNode) (ctx : Ctx) (h : x.bl2 ctx = true) (hi : x.isI
       simp [PNode.valueR, PNode.flow, strFlowText, ht, trailText, hne]
     | single => simp [PNode.valueR, PNode.flow, strFlowText, sqText, ht, trailText]
     | double sh eu => simp [PNode.valueR, PNode.flow, strFlowText, dqText, ht, trailText]
-    | literal ch ind ex => simp [PNode.bl2, PNode.sc2] at h
+    | literal ch ind ex => simp [PNode.isInline2] at hi
     | folded ch ind ex fo => simp [PNode.bl2, PNode.sc2] at h
   | seq fl st c items =>
     cases fl with
@@ -1201,7 +1201,13 @@ theorem okc_inline2 (x : PNode) (ctx : Ctx) (h : x.bl2 ctx = true) (hi : x.isInl
   | null v => exact (scalarFacts false (.null v) (by simp [PNode.sc2]) (by intros; simp) (by intros; simp)).ok
   | bool b v => exact (scalarFacts false (.bool b v) (by simp [PNode.sc2]) (by intros; simp) (by intros; simp)).ok
   | int i v => exact (scalarFacts false (.int i v) (by simp [PNode.sc2]) (by intros; simp) (by intros; simp)).ok
-  | str s st => exact (scalarFacts false (.str s st) (by simpa [PNode.bl2] using h) (by intros; simp) (by intros; simp)).ok
+  | str s st =>
+    cases st with
+    | literal ch ind ex => simp [PNode.isInline2] at hi
+    | plain => exact (scalarFacts false (.str s .plain) (by simpa [PNode.bl2] using h) (by intros; simp) (by intros; simp)).ok
+    | single => exact (scalarFacts false (.str s .single) (by simpa [PNode.bl2] using h) (by intros; simp) (by intros; simp)).ok
+    | double sh eu => exact (scalarFacts false (.str s (.double sh eu)) (by simp [PNode.sc2]) (by intros; simp) (by intros; simp)).ok
+    | folded ch ind ex fo => simp [PNode.bl2, PNode.sc2] at h
   | anchored a n => simp [PNode.bl2, PNode.sc2] at h
   | alias a t => simp [PNode.bl2, PNode.sc2] at h
 
@@ -1325,11 +1331,25 @@ theorem canon_value : (x : PNode) → ∀ ctx, x.bl2 ctx = true → ∀ (e col :
     · exact ⟨Or.inl rfl, rfl, by simp⟩
     · exact ⟨Or.inr (by simp [spaces, List.replicate_succ]), by simp only [List.all_append, okc_spaces, hok, Bool.and_self], by simp⟩
   | .str s st, ctx, h, e, col, m, ht => by
-    rw [valueR_inline _ ctx h rfl e col m ht]
-    have hok := okc_inline2 _ ctx h rfl
-    split
-    · exact ⟨Or.inl rfl, rfl, by simp⟩
-    · exact ⟨Or.inr (by simp [spaces, List.replicate_succ]), by simp only [List.all_append, okc_spaces, hok, Bool.and_self], by simp⟩
+    cases st
+    case literal ch ind ex =>
+      simp only [PNode.bl2, Bool.and_eq_true] at h
+      have hs := h.2
+      simp only [strOk, Bool.not_false, Bool.true_and, Bool.and_eq_true, decide_eq_true_eq] at hs
+      obtain ⟨⟨⟨⟨⟨hind, h9⟩, hlines⟩, hch⟩, hex⟩, hroot⟩ := hs
+      simp only [PNode.valueR, ht, trailText, List.append_nil]
+      refine ⟨Or.inr (by simp [spaces, List.replicate_succ]), ?_, ?_⟩
+      · rw [List.all_append, okc_spaces, Bool.true_and]
+        exact hdr_okc '|' (by decide) ex ind ch h9
+      · intro l hl
+        exact bsLines_canon _ _ (body_lines_printable ch s hlines hch) l hl
+    case folded ch ind ex fo => simp [PNode.bl2, PNode.sc2] at h
+    all_goals (
+      rw [valueR_inline _ ctx h rfl e col m ht]
+      have hok := okc_inline2 _ ctx h rfl
+      split
+      · exact ⟨Or.inl rfl, rfl, by simp⟩
+      · exact ⟨Or.inr (by simp [spaces, List.replicate_succ]), by simp only [List.all_append, okc_spaces, hok, Bool.and_self], by simp⟩)
   | .anchored a n, ctx, h, _, _, _, _ => by simp [PNode.bl2, PNode.sc2] at h
   | .alias a t, ctx, h, _, _, _, _ => by simp [PNode.bl2, PNode.sc2] at h
 theorem canon_items : (items : PItems) → items.bl2 = true → ∀ n, ∀ l ∈ items.linesR n, l.canon
@@ -1671,7 +1691,7 @@ theorem inline2_value (x : PNode) (ctx : Ctx) (h : x.bl2 ctx = true) (hi : x.isI
     | double sh eu =>
       obtain ⟨h1, h2, h3⟩ := inline_dq sh eu s
       exact ⟨⟨'"', _, rfl, by decide, by decide, by decide, by decide, by decide, by decide⟩, h1, h2, h3⟩
-    | literal ch ind ex => simp [PNode.bl2, PNode.sc2] at h
+    | literal ch ind ex => simp [PNode.isInline2] at hi
     | folded ch ind ex fo => simp [PNode.bl2, PNode.sc2] at h
   | anchored a n => simp [PNode.bl2, PNode.sc2] at h
   | alias a t => simp [PNode.bl2, PNode.sc2] at h
@@ -1866,7 +1886,7 @@ theorem node_of_empty_flow (x : PNode) (ctx : Ctx) (h : x.bl2 ctx = true) (hi : 
       subst this; simp [plainSafe, plainFirstOk] at hs
     | single => simp [PNode.flow, strFlowText, sqText] at he
     | double sh eu => simp [PNode.flow, strFlowText, dqText] at he
-    | literal ch ind ex => simp [PNode.bl2, PNode.sc2] at h
+    | literal ch ind ex => simp [PNode.isInline2] at hi
     | folded ch ind ex fo => simp [PNode.bl2, PNode.sc2] at h
   | seq fl st c items => cases fl <;> simp [PNode.flow, PNode.isInline2] at he hi
   | map fl st c es => cases fl <;> simp [PNode.flow, PNode.isInline2] at he hi
@@ -1928,29 +1948,71 @@ theorem bound_after_entries (r : PEntries) (hr : r.bl2 = true) (n : Nat) (rest :
     exact ⟨Nat.le_refl _, htab, fun _ => hd⟩
 
 
+theorem tail_after_items (m : Meta) (x : PNode) (r : PItems) (hr : r.bl2 = true) (n : Nat) (rest : List Line)
+    (hT : Tail n (PItems.cons m x r).endsKeep rest) :
+    Tail n x.endsKeep (r.linesR n ++ rest) ∧ Tail n r.endsKeep rest := by
+  cases r with
+  | nil => exact ⟨by simpa [PItems.linesR, PItems.endsKeep] using hT, Tail_weaken _ _ _ hT⟩
+  | cons m' x' r' =>
+    refine ⟨?_, by simpa [PItems.endsKeep] using hT⟩
+    simp only [PItems.bl2, Bool.and_eq_true, List.isEmpty_iff, Option.isNone_iff_eq_none] at hr
+    have hf : m'.fill = [] := hr.1.1.1
+    simp only [PItems.linesR, hf, fillLines, List.map_nil, List.nil_append, List.cons_append]
+    exact Tail_of_head n _ _ _ rfl (Nat.le_refl _)
+
+theorem tail_after_entries (m : Meta) (k : Str) (ks : KStyle) (x : PNode) (r : PEntries) (hr : r.bl2 = true) (n : Nat)
+    (rest : List Line) (hT : Tail n (PEntries.cons m k ks x r).endsKeep rest) :
+    Tail n x.endsKeep (r.linesR n ++ rest) ∧ Tail n r.endsKeep rest := by
+  cases r with
+  | nil => exact ⟨by simpa [PEntries.linesR, PEntries.endsKeep] using hT, Tail_weaken _ _ _ hT⟩
+  | cons m' k' ks' x' r' =>
+    refine ⟨?_, by simpa [PEntries.endsKeep] using hT⟩
+    simp only [PEntries.bl2, Bool.and_eq_true, List.isEmpty_iff, Option.isNone_iff_eq_none] at hr
+    have hf : m'.fill = [] := hr.1.1.1.1
+    have hk : keyOk false k' ks' = true := hr.1.1.2
+    obtain ⟨c0, t0, hkt, _⟩ := keyHead_facts k' ks' hk
+    simp only [PEntries.linesR, hf, fillLines, List.map_nil, List.nil_append, List.cons_append, hkt]
+    exact Tail_of_head n _ _ _ rfl (Nat.le_refl _)
+
 mutual
-/-- A layer-2 value after its indicator. -/
+/-- A layer-2/3 value after its indicator. -/
 theorem afterL : (x : PNode) → ∀ (ctx : Ctx), x.bl2 ctx = true → ∀ (e col : Nat) (m : Meta), m.trail = none →
-    (e < col ∨ ctx = .root) → ∀ (f : Nat) (rest : List Line), x.bneed ≤ f → Bound ctx e rest →
+    (e < col ∨ ctx = .root) → (ctx = .root → e = 0) → ∀ (f : Nat) (rest : List Line), x.bneed ≤ f → Bound ctx e rest →
+    Tail e x.endsKeep rest →
     Parsed (parseAfter f (x.valueR ctx e col m).1 col (pnOf ctx e) (ctx == .seq) (ctx == .map) ((x.valueR ctx e col m).2 ++ rest))
       x.node rest
-  | .null v, ctx, h, e, col, m, ht, _, f, rest, hf, hb =>
+  | .null v, ctx, h, e, col, m, ht, _, _, f, rest, hf, hb, _ =>
     afterL_inline _ ctx h rfl e col m ht f rest (by simpa [PNode.bneed] using hf) hb
-  | .bool b v, ctx, h, e, col, m, ht, _, f, rest, hf, hb =>
+  | .bool b v, ctx, h, e, col, m, ht, _, _, f, rest, hf, hb, _ =>
     afterL_inline _ ctx h rfl e col m ht f rest (by simpa [PNode.bneed] using hf) hb
-  | .int i v, ctx, h, e, col, m, ht, _, f, rest, hf, hb =>
+  | .int i v, ctx, h, e, col, m, ht, _, _, f, rest, hf, hb, _ =>
     afterL_inline _ ctx h rfl e col m ht f rest (by simpa [PNode.bneed] using hf) hb
-  | .str s st, ctx, h, e, col, m, ht, _, f, rest, hf, hb =>
+  | .str s st, ctx, h, e, col, m, ht, _, _, f, rest, hf, hb, hT => by
+    cases st
+    case literal ch ind ex =>
+      simp only [PNode.bl2, Bool.and_eq_true, bne_iff_ne, ne_eq] at h
+      obtain ⟨f', rfl⟩ : ∃ f', f = f' + 1 := ⟨f - 1, by simp [PNode.bneed] at hf; omega⟩
+      have hpn : pnOf ctx e = if false = true then 0 else e + 1 := by simp [pnOf, h.1]
+      have hk : (PNode.str s (.literal ch ind ex)).endsKeep = (ch == .keep) := by cases ch <;> rfl
+      rw [hk] at hT
+      have := after_literal f' m.gap col (pnOf ctx e) e (ctx == .seq) (ctx == .map) false s ch ind ex hpn
+        (by intro h'; cases h') h.2 rest hT
+      simp only [PNode.valueR, ht, trailText, List.append_nil, PNode.node]
+      have e1 : (if ctx = Ctx.root then 0 else e + 1) = pnOf ctx e := rfl
+      rw [e1]
+      exact ⟨rest.dropWhile blankL, this, skipFill_dropBlank rest⟩
+    case folded ch ind ex fo => simp [PNode.bl2, PNode.sc2] at h
+    all_goals exact afterL_inline _ ctx h rfl e col m ht f rest (by simpa [PNode.bneed] using hf) hb
+  | .anchored a n, ctx, h, _, _, _, _, _, _, _, _, _, _, _ => by simp [PNode.bl2, PNode.sc2] at h
+  | .alias a t, ctx, h, _, _, _, _, _, _, _, _, _, _, _ => by simp [PNode.bl2, PNode.sc2] at h
+  | .seq true st c items, ctx, h, e, col, m, ht, _, _, f, rest, hf, hb, _ =>
     afterL_inline _ ctx h rfl e col m ht f rest (by simpa [PNode.bneed] using hf) hb
-  | .anchored a n, ctx, h, _, _, _, _, _, _, _, _, _ => by simp [PNode.bl2, PNode.sc2] at h
-  | .alias a t, ctx, h, _, _, _, _, _, _, _, _, _ => by simp [PNode.bl2, PNode.sc2] at h
-  | .seq true st c items, ctx, h, e, col, m, ht, _, f, rest, hf, hb =>
+  | .map true st c es, ctx, h, e, col, m, ht, _, _, f, rest, hf, hb, _ =>
     afterL_inline _ ctx h rfl e col m ht f rest (by simpa [PNode.bneed] using hf) hb
-  | .map true st c es, ctx, h, e, col, m, ht, _, f, rest, hf, hb =>
-    afterL_inline _ ctx h rfl e col m ht f rest (by simpa [PNode.bneed] using hf) hb
-  | .seq false st c items, ctx, h, e, col, m, ht, hcol, f, rest, hf, hb => by
+  | .seq false st c items, ctx, h, e, col, m, ht, hcol, hroot, f, rest, hf, hb, hT => by
     simp only [PNode.bl2, Bool.and_eq_true, Bool.not_eq_true'] at h
     obtain ⟨⟨hnil, hi⟩, hc⟩ := h
+    have hT : Tail e items.endsKeep rest := by simpa [PNode.endsKeep] using hT
     cases items with
     | nil => simp [PItems.isNil] at hnil
     | cons m' x r =>
@@ -1994,7 +2056,11 @@ theorem afterL : (x : PNode) → ∀ (ctx : Ctx), x.bl2 ctx = true → ∀ (e co
             · right; left; simp; omega
             · have : st = 0 := by omega
               right; right; simp [this]
-        have := seqL (.cons m' x r) hi (if ctx = .root then 0 else e + st) f' rest [] hf' hbs
+        have hle : e ≤ (if ctx = .root then 0 else e + st) := by
+          by_cases hr0 : ctx = .root
+          · simp [hr0, hroot hr0]
+          · simp [hr0]
+        have := seqL (.cons m' x r) hi (if ctx = .root then 0 else e + st) f' rest [] hf' hbs (Tail_mono _ _ _ _ hle hT)
         simp only [PItems.linesR, hfl, fillLines, List.map_nil, List.nil_append, List.cons_append, List.append_assoc,
           List.reverse_nil] at this
         exact this
@@ -2022,13 +2088,14 @@ theorem afterL : (x : PNode) → ∀ (ctx : Ctx), x.bl2 ctx = true → ∀ (e co
         rw [hdisp]
         have hbs : BoundSeq (col + m.gap + 1) rest :=
           bound_to_seq .seq e _ rest hb (Or.inr (Or.inl (by omega)))
-        have := seqL (.cons m' x r) hi (col + m.gap + 1) f' rest [] hf' hbs
+        have := seqL (.cons m' x r) hi (col + m.gap + 1) f' rest [] hf' hbs (Tail_mono _ _ _ _ (by omega) hT)
         simp only [PItems.linesR, hfl, fillLines, List.map_nil, List.nil_append, List.cons_append, List.append_assoc,
           List.reverse_nil] at this
         exact this
-  | .map false st c es, ctx, h, e, col, m, ht, hcol, f, rest, hf, hb => by
+  | .map false st c es, ctx, h, e, col, m, ht, hcol, hroot, f, rest, hf, hb, hT => by
     simp only [PNode.bl2, Bool.and_eq_true, Bool.not_eq_true'] at h
     obtain ⟨⟨hnil, hi⟩, hc⟩ := h
+    have hT : Tail e es.endsKeep rest := by simpa [PNode.endsKeep] using hT
     cases es with
     | nil => simp [PEntries.isNil] at hnil
     | cons m' k ks x r =>
@@ -2064,7 +2131,11 @@ theorem afterL : (x : PNode) → ∀ (ctx : Ctx), x.bl2 ctx = true → ∀ (e co
                    right; simp; omega
           | map => have : 1 ≤ st := by simpa using hk
                    right; simp; omega
-        have := mapL (.cons m' k ks x r) hi (if ctx = .root then 0 else e + st) f' rest [] hf' hbm
+        have hle : e ≤ (if ctx = .root then 0 else e + st) := by
+          by_cases hr0 : ctx = .root
+          · simp [hr0, hroot hr0]
+          · simp [hr0]
+        have := mapL (.cons m' k ks x r) hi (if ctx = .root then 0 else e + st) f' rest [] hf' hbm (Tail_mono _ _ _ _ hle hT)
         simp only [PEntries.linesR, hfl, fillLines, List.map_nil, List.nil_append, List.cons_append, List.append_assoc,
           List.reverse_nil] at this
         exact this
@@ -2095,14 +2166,14 @@ theorem afterL : (x : PNode) → ∀ (ctx : Ctx), x.bl2 ctx = true → ∀ (e co
         simp only [List.cons_append] at hdisp
         rw [e1, hdisp]
         have hbm : BoundMap (col + m.gap + 1) rest := bound_to_map .seq e _ rest hb (Or.inr (by omega))
-        have := mapL (.cons m' k ks x r) hi (col + m.gap + 1) f' rest [] hf' hbm
+        have := mapL (.cons m' k ks x r) hi (col + m.gap + 1) f' rest [] hf' hbm (Tail_mono _ _ _ _ (by omega) hT)
         simp only [PEntries.linesR, hfl, fillLines, List.map_nil, List.nil_append, List.cons_append, List.append_assoc,
           List.reverse_nil, hkt] at this
         exact this
 /-- The entries of a block sequence at indentation `n`. -/
 theorem seqL : (items : PItems) → items.bl2 = true → ∀ (n f : Nat) (rest : List Line) (acc : List Node), items.bneed ≤ f →
-    BoundSeq n rest → Parsed (parseSeq f n (items.linesR n ++ rest) acc) (.seq (acc.reverse ++ items.nodes)) rest
-  | .nil, _, n, f, rest, acc, hf, hb => by
+    BoundSeq n rest → Tail n items.endsKeep rest → Parsed (parseSeq f n (items.linesR n ++ rest) acc) (.seq (acc.reverse ++ items.nodes)) rest
+  | .nil, _, n, f, rest, acc, hf, hb, _ => by
     obtain ⟨f', rfl⟩ : ∃ f', f = f' + 1 := ⟨f - 1, by simp [PItems.bneed] at hf; omega⟩
     simp only [PItems.linesR, List.nil_append, PItems.nodes, List.append_nil]
     rw [parseSeq]
@@ -2117,10 +2188,11 @@ theorem seqL : (items : PItems) → items.bl2 = true → ∀ (n f : Nat) (rest :
       · have ht : (l.txt.head? == some '\t') = false := by simpa using h1
         simp only [h2, Nat.lt_irrefl, if_false, h3, Bool.not_false, if_true, ht, Bool.false_eq_true]
         exact ⟨l :: r, rfl, by rw [hid, hs]⟩
-  | .cons m x r, h, n, f, rest, acc, hf, hb => by
+  | .cons m x r, h, n, f, rest, acc, hf, hb, hT => by
     have h' := h
     simp only [PItems.bl2, Bool.and_eq_true, List.isEmpty_iff, Option.isNone_iff_eq_none] at h'
     obtain ⟨⟨⟨hfl, htr⟩, hx⟩, hr⟩ := h'
+    obtain ⟨hT1, hT2⟩ := tail_after_items m x r hr n rest hT
     obtain ⟨f', rfl⟩ : ∃ f', f = f' + 1 := ⟨f - 1, by simp [PItems.bneed] at hf; omega⟩
     have hfx : x.bneed ≤ f' := by simp [PItems.bneed] at hf; omega
     have hfr : r.bneed ≤ f' := by simp [PItems.bneed] at hf; omega
@@ -2129,19 +2201,19 @@ theorem seqL : (items : PItems) → items.bl2 = true → ∀ (n f : Nat) (rest :
     simp only [PItems.linesR, hfl, fillLines, List.map_nil, List.nil_append, List.cons_append, List.append_assoc, PItems.nodes]
     rw [parseSeq]
     simp only [skipFill, hfil, Bool.false_eq_true, if_false, Nat.lt_irrefl, hd, Bool.not_true, List.drop_one, List.tail_cons]
-    obtain ⟨rest', hpa, hsk⟩ := afterL x .seq hx n (n + 1) m htr (Or.inl (Nat.lt_succ_self n)) f'
-      (r.linesR n ++ rest) hfx (bound_after_items r hr n rest hb)
+    obtain ⟨rest', hpa, hsk⟩ := afterL x .seq hx n (n + 1) m htr (Or.inl (Nat.lt_succ_self n)) (by intro h0; cases h0) f'
+      (r.linesR n ++ rest) hfx (bound_after_items r hr n rest hb) hT1
     simp only [pnOf, show (Ctx.seq = Ctx.root) = False by simp, if_false, show (Ctx.seq == Ctx.seq) = true by rfl,
       show (Ctx.seq == Ctx.map) = false by rfl] at hpa
     rw [hpa]
     simp only
     rw [parseSeq_congr f' n rest' (r.linesR n ++ rest) (x.node :: acc) hsk]
-    have := seqL r hr n f' rest (x.node :: acc) hfr hb
+    have := seqL r hr n f' rest (x.node :: acc) hfr hb hT2
     simpa [List.reverse_cons, List.append_assoc] using this
 /-- The entries of a block mapping at indentation `n`. -/
 theorem mapL : (es : PEntries) → es.bl2 = true → ∀ (n f : Nat) (rest : List Line) (acc : List (Node × Node)), es.bneed ≤ f →
-    BoundMap n rest → Parsed (parseMap f n (es.linesR n ++ rest) acc) (.map (acc.reverse ++ es.nodes)) rest
-  | .nil, _, n, f, rest, acc, hf, hb => by
+    BoundMap n rest → Tail n es.endsKeep rest → Parsed (parseMap f n (es.linesR n ++ rest) acc) (.map (acc.reverse ++ es.nodes)) rest
+  | .nil, _, n, f, rest, acc, hf, hb, _ => by
     obtain ⟨f', rfl⟩ : ∃ f', f = f' + 1 := ⟨f - 1, by simp [PEntries.bneed] at hf; omega⟩
     simp only [PEntries.linesR, List.nil_append, PEntries.nodes, List.append_nil]
     rw [parseMap]
@@ -2152,10 +2224,11 @@ theorem mapL : (es : PEntries) → es.bl2 = true → ∀ (n f : Nat) (rest : Lis
       obtain ⟨h1, h2⟩ := hb l r hs
       simp only [h2, if_true]
       exact ⟨l :: r, rfl, by rw [hid, hs]⟩
-  | .cons m k ks x r, h, n, f, rest, acc, hf, hb => by
+  | .cons m k ks x r, h, n, f, rest, acc, hf, hb, hT => by
     have h' := h
     simp only [PEntries.bl2, Bool.and_eq_true, List.isEmpty_iff, Option.isNone_iff_eq_none] at h'
     obtain ⟨⟨⟨⟨hfl, htr⟩, hkey⟩, hx⟩, hr⟩ := h'
+    obtain ⟨hT1, hT2⟩ := tail_after_entries m k ks x r hr n rest hT
     obtain ⟨f', rfl⟩ : ∃ f', f = f' + 1 := ⟨f - 1, by simp [PEntries.bneed] at hf; omega⟩
     have hfx : x.bneed ≤ f' := by simp [PEntries.bneed] at hf; omega
     have hfr : r.bneed ≤ f' := by simp [PEntries.bneed] at hf; omega
@@ -2168,14 +2241,14 @@ theorem mapL : (es : PEntries) → es.bl2 = true → ∀ (n f : Nat) (rest : Lis
         - (x.valueR .map n (n + (keyText k ks).length + 1) m).1.length) = n + (keyText k ks).length + 1 := by
       simp only [List.length_append, List.length_cons]; omega
     rw [hcol]
-    obtain ⟨rest', hpa, hsk⟩ := afterL x .map hx n (n + (keyText k ks).length + 1) m htr (Or.inl (by omega)) f'
-      (r.linesR n ++ rest) hfx (bound_after_entries r hr n rest hb)
+    obtain ⟨rest', hpa, hsk⟩ := afterL x .map hx n (n + (keyText k ks).length + 1) m htr (Or.inl (by omega)) (by intro h0; cases h0) f'
+      (r.linesR n ++ rest) hfx (bound_after_entries r hr n rest hb) hT1
     simp only [pnOf, show (Ctx.map = Ctx.root) = False by simp, if_false, show (Ctx.map == Ctx.seq) = false by rfl,
       show (Ctx.map == Ctx.map) = true by rfl] at hpa
     rw [hpa]
     simp only
     rw [parseMap_congr f' n rest' (r.linesR n ++ rest) ((keyNode k ks, x.node) :: acc) hsk]
-    have := mapL r hr n f' rest ((keyNode k ks, x.node) :: acc) hfr hb
+    have := mapL r hr n f' rest ((keyNode k ks, x.node) :: acc) hfr hb hT2
     simpa [List.reverse_cons, List.append_assoc] using this
 end
 
@@ -2187,8 +2260,11 @@ theorem resolveB : (x : PNode) → ∀ ctx, x.bl2 ctx = true → ∀ env, x.node
   | .null v, ctx, h, env => (scalarFacts false (.null v) (by simp [PNode.sc2]) (by intros; simp) (by intros; simp)).res env
   | .bool b v, ctx, h, env => (scalarFacts false (.bool b v) (by simp [PNode.sc2]) (by intros; simp) (by intros; simp)).res env
   | .int i v, ctx, h, env => (scalarFacts false (.int i v) (by simp [PNode.sc2]) (by intros; simp) (by intros; simp)).res env
-  | .str s st, ctx, h, env =>
-    (scalarFacts false (.str s st) (by simpa [PNode.bl2] using h) (by intros; simp) (by intros; simp)).res env
+  | .str s st, ctx, h, env => by
+    cases st
+    case literal ch ind ex => simp [PNode.node, Node.resolve, resolveScalar, PNode.tree]; rfl
+    case folded ch ind ex fo => simp [PNode.bl2, PNode.sc2] at h
+    all_goals exact (scalarFacts false _ (by simpa [PNode.bl2] using h) (by intros; simp) (by intros; simp)).res env
   | .seq true st c items, ctx, h, env => resolveNode2 _ (by simpa [PNode.bl2] using h) env
   | .map true st c es, ctx, h, env => resolveNode2 _ (by simpa [PNode.bl2] using h) env
   | .seq false st c items, ctx, h, env => by
@@ -2395,7 +2471,18 @@ theorem nm_value : (x : PNode) → ∀ ctx, x.bl2 ctx = true → ∀ (e col : Na
   | .null v, ctx, h, e, col, m, ht => by rw [valueR_inline _ ctx h rfl e col m ht]; simp
   | .bool b v, ctx, h, e, col, m, ht => by rw [valueR_inline _ ctx h rfl e col m ht]; simp
   | .int i v, ctx, h, e, col, m, ht => by rw [valueR_inline _ ctx h rfl e col m ht]; simp
-  | .str s st, ctx, h, e, col, m, ht => by rw [valueR_inline _ ctx h rfl e col m ht]; simp
+  | .str s st, ctx, h, e, col, m, ht => by
+    cases st
+    case literal ch ind ex =>
+      simp only [PNode.bl2, Bool.and_eq_true, bne_iff_ne, ne_eq] at h
+      have hs := h.2
+      simp only [strOk, Bool.not_false, Bool.true_and, Bool.and_eq_true, decide_eq_true_eq] at hs
+      obtain ⟨⟨⟨⟨⟨hind, h9⟩, hlines⟩, hch⟩, hex⟩, hroot⟩ := hs
+      simp only [PNode.valueR, h.1, if_false]
+      intro l hl
+      exact bsLines_notMark _ (by simp at hind; omega) _ (body_lines_ok ch s hlines hch) l hl
+    case folded ch ind ex fo => simp [PNode.bl2, PNode.sc2] at h
+    all_goals (rw [valueR_inline _ ctx h rfl e col m ht]; simp)
   | .anchored a n, ctx, h, _, _, _, _ => by simp [PNode.bl2, PNode.sc2] at h
   | .alias a t, ctx, h, _, _, _, _ => by simp [PNode.bl2, PNode.sc2] at h
 theorem nm_items : (items : PItems) → items.bl2 = true → ∀ n, ∀ l ∈ items.linesR n, l.notMark
@@ -2461,6 +2548,18 @@ theorem flow_ne_nil_root (x : PNode) (h : x.bl2 .root = true) (hi : x.isInline2 
   | anchored a n => simp [PNode.bl2, PNode.sc2] at h
   | alias a t => simp [PNode.bl2, PNode.sc2] at h
 
+theorem root_not_str (x : PNode) (h : x.bl2 .root = true) (hi : x.isInline2 = false) : ∀ s st, x ≠ .str s st := by
+  intro s st e
+  subst e
+  cases st <;> simp_all [PNode.isInline2, PNode.bl2, PNode.sc2]
+
+theorem root_coll_of_not_inline (x : PNode) (h : x.bl2 .root = true) (hi : x.isInline2 = false) : x.isBlockColl = true := by
+  cases x with
+  | str s st => exact absurd rfl (root_not_str _ h hi s st)
+  | seq fl st c items => cases fl <;> simp_all [PNode.isInline2, PNode.isBlockColl]
+  | map fl st c es => cases fl <;> simp_all [PNode.isInline2, PNode.isBlockColl]
+  | _ => simp [PNode.isInline2] at hi
+
 theorem chars_bare (x : PNode) (g : Nat) (h : x.bl2 .root = true) : (bareStream x g).chars = joinRaw (docLines x g) := by
   have hcwf := cwf_of_bl2 x .root h
   simp only [PStream.chars, bareStream, List.flatMap_cons, List.flatMap_nil, List.append_nil, flatMap_lf]
@@ -2479,9 +2578,7 @@ theorem chars_bare (x : PNode) (g : Nat) (h : x.bl2 .root = true) : (bareStream 
     have := dropSpaces_spaces (g + 1) c (r ++ '\n' :: []) hsp
     simpa [dropSpaces, spaces, List.append_assoc] using this
   · have hi' : x.isInline2 = false := by simpa using hi
-    have hb : x.isBlockColl = true := by
-      cases x <;> simp [PNode.isInline2, PNode.isBlockColl] at hi' ⊢
-      all_goals (rename_i fl _ _ _; cases fl <;> simp_all [PNode.isInline2, PNode.isBlockColl])
+    have hb : x.isBlockColl = true := root_coll_of_not_inline x h hi'
     have hr1 : (x.valueR .root 0 0 { gap := g }).1 = [] := by
       cases x with
       | seq fl st c items =>
@@ -2504,6 +2601,7 @@ theorem chars_bare (x : PNode) (g : Nat) (h : x.bl2 .root = true) : (bareStream 
             · rfl
             · simp at h
           subst hc; simp [PNode.valueR, trailText]
+      | str s st => exact absurd rfl (root_not_str _ h hi' s st)
       | _ => simp [PNode.isInline2] at hi'
     simp only [hb, if_true, hr1, List.nil_append, List.drop_succ_cons, List.drop_zero, docLines, hi', Bool.false_eq_true,
       if_false]
@@ -2558,7 +2656,7 @@ theorem docLines_head (x : PNode) (g : Nat) (h : x.bl2 .root = true) :
           simp only [List.all_cons, Bool.and_eq_true] at hp; exact absurd hp.1 (by decide)
         | single => simp [PNode.flow, strFlowText, sqText] at hx
         | double sh eu => simp [PNode.flow, strFlowText, dqText] at hx
-        | literal ch ind ex => simp [PNode.bl2, PNode.sc2] at h
+        | literal ch ind ex => simp [PNode.isInline2] at hi
         | folded ch ind ex fo => simp [PNode.bl2, PNode.sc2] at h
       | seq fl st c items => cases fl <;> simp [PNode.flow, PNode.isInline2] at hx hi
       | map fl st c es => cases fl <;> simp [PNode.flow, PNode.isInline2] at hx hi
@@ -2591,7 +2689,7 @@ theorem docLines_head (x : PNode) (g : Nat) (h : x.bl2 .root = true) :
           exact plainHead_ne c' hc' '%' (by decide) (List.cons.inj hk').1.symm
         | single => simp [PNode.flow, strFlowText, sqText] at hx
         | double sh eu => simp [PNode.flow, strFlowText, dqText] at hx
-        | literal ch ind ex => simp [PNode.bl2, PNode.sc2] at h
+        | literal ch ind ex => simp [PNode.isInline2] at hi
         | folded ch ind ex fo => simp [PNode.bl2, PNode.sc2] at h
       | seq fl st c items => cases fl <;> simp [PNode.flow, PNode.isInline2] at hx hi
       | map fl st c es => cases fl <;> simp [PNode.flow, PNode.isInline2] at hx hi
@@ -2634,6 +2732,7 @@ theorem docLines_head (x : PNode) (g : Nat) (h : x.bl2 .root = true) :
             (y.valueR .map 0 (0 + (keyText k ks).length + 1) m').2 ++ r.linesR 0, ?_, q1, q2, q3⟩
           simp only [docLines, PNode.isInline2, Bool.false_eq_true, if_false, PNode.valueR, PEntries.linesR, hf, fillLines,
             List.map_nil, List.nil_append, hkt, List.cons_append, if_true]
+    | str s st => exact absurd rfl (root_not_str _ h hi' s st)
     | _ => simp [PNode.isInline2] at hi'
 
 
@@ -2691,7 +2790,7 @@ theorem docLines_notMark (x : PNode) (g : Nat) (h : x.bl2 .root = true) : ∀ l 
           exact ⟨hs.1.2, hs.2⟩
         | single => exact ⟨by simp [PNode.flow, strFlowText, sqText, e1, List.isPrefixOf], by simp [PNode.flow, strFlowText, sqText, e2, List.isPrefixOf]⟩
         | double sh eu => exact ⟨by simp [PNode.flow, strFlowText, dqText, e1, List.isPrefixOf], by simp [PNode.flow, strFlowText, dqText, e2, List.isPrefixOf]⟩
-        | literal ch ind ex => simp [PNode.bl2, PNode.sc2] at h
+        | literal ch ind ex => simp [PNode.isInline2] at hi
         | folded ch ind ex fo => simp [PNode.bl2, PNode.sc2] at h
       | seq fl st c items =>
         cases fl with
@@ -2747,9 +2846,11 @@ theorem parseDocBody_block2 (x : PNode) (g : Nat) (h : x.bl2 .root = true) :
             · rfl
             · simp at h
           subst hc; simp [PNode.valueR, trailText]
+      | str s st => exact absurd rfl (root_not_str _ h hi' s st)
       | _ => simp [PNode.isInline2] at hi'
-    have hA := afterL x .root h 0 0 { gap := g } rfl (Or.inr rfl)
+    have hA := afterL x .root h 0 0 { gap := g } rfl (Or.inr rfl) (fun _ => rfl)
       (wt (x.valueR .root 0 0 { gap := g }).2 * 4 + 8 + 1) [] (by rw [hr1] at hb; simp at hb; omega) (by simp [Bound, skipFill])
+      (Tail_nil _ _)
     rw [hr1, parseAfter_nil] at hA
     simp only [pnOf, if_true, show (Ctx.root == Ctx.map) = false by rfl, List.append_nil] at hA
     obtain ⟨rest', hp, hsk⟩ := hA
